@@ -1282,7 +1282,13 @@ func (w *Wallet) selectProofsForAmount(
 		if inactiveKeysetProofs.Amount() < amount {
 			selectedProofs = inactiveKeysetProofs
 		} else {
-			selectedProofs, _ = selectProofsToSend(inactiveKeysetProofs, amount, mint, includeFees)
+			var err error
+			selectedProofs, err = selectProofsToSend(inactiveKeysetProofs, amount, mint, includeFees)
+			if err != nil {
+				// the inactive proofs alone do not cover amount + fees:
+				// use all of them and add proofs from the active keyset
+				selectedProofs = inactiveKeysetProofs
+			}
 		}
 		if includeFees {
 			fees = uint64(feesForProofs(selectedProofs, mint))
